@@ -1170,6 +1170,11 @@ impl<'a> Exec<'a> {
             Err(p) => {
                 self.record(ix, op, &p.render());
                 let p = p.clone();
+                if p.loc.starts_with("lib.rs:") {
+                    // every generated call is valid: a panic in the registry's own bookkeeping means
+                    // the id did not behave as an independent store (e.g. cannot be created again)
+                    self.violate("C20", "C20.registry_panic", ix, &p.loc.clone(), format!("{} on id {} -> {}", op.kind(), id, p.render()), "valid calls on a live / re-created id return normally".into(), String::new());
+                }
                 self.on_panic(ix, &p);
                 return;
             }
